@@ -117,6 +117,26 @@ def genOps3 : List (String × R String) := [
       pure (ansG hex (Gen.segwit_digest Crypto.sha256 Gen.OP_CODES t.version
         (t.inputs.map fun i => ⟨i.txid, i.index, py i.scriptSig, i.sequence⟩)
         (t.outputs.map fun o => ⟨o.amount, py o.script⟩) t.locktime (i : Int) (py code) amt (ht : Int)))),
+  ("g:tx_sizes", do
+      let t ← tx
+      let py := fun (ts : List Spec.Tok) => ts.map fun t => match t with
+        | Spec.Tok.op n => Py.PyTok.name n | Spec.Tok.int n => Py.PyTok.int n | Spec.Tok.data d => Py.PyTok.data d
+      let ins := t.inputs.map fun i => (⟨i.txid, i.index, py i.scriptSig, i.sequence⟩ : Py.PyTxIn)
+      let outs := t.outputs.map fun o => (⟨o.amount, py o.script⟩ : Py.PyTxOut)
+      pure (ansG id (do
+        let a ← Gen.transaction_get_size Gen.OP_CODES t.version ins outs (t.witnesses.map Py.PyWit.mk) t.locktime t.hasSegwit
+        let b ← Gen.transaction_get_vsize Gen.OP_CODES t.version ins outs (t.witnesses.map Py.PyWit.mk) t.locktime t.hasSegwit
+        pure s!"{a} {b}"))),
+  ("g:tx_ids", do
+      let t ← tx
+      let py := fun (ts : List Spec.Tok) => ts.map fun t => match t with
+        | Spec.Tok.op n => Py.PyTok.name n | Spec.Tok.int n => Py.PyTok.int n | Spec.Tok.data d => Py.PyTok.data d
+      let ins := t.inputs.map fun i => (⟨i.txid, i.index, py i.scriptSig, i.sequence⟩ : Py.PyTxIn)
+      let outs := t.outputs.map fun o => (⟨o.amount, py o.script⟩ : Py.PyTxOut)
+      pure (ansG id (do
+        let a ← Gen.transaction_get_txid Crypto.sha256 Gen.OP_CODES t.version ins outs (t.witnesses.map Py.PyWit.mk) t.locktime t.hasSegwit
+        let b ← Gen.transaction_get_wtxid Crypto.sha256 Gen.OP_CODES t.version ins outs (t.witnesses.map Py.PyWit.mk) t.locktime t.hasSegwit
+        pure s!"{hex a} {hex b}"))),
   ("g:tx_parse", do
       let b ← bytes
       pure (ansG (fun t => showTx (backTx t)) (Gen.transaction_from_raw Gen.CODE_OPS b))),
